@@ -104,11 +104,19 @@ class IndicatorNumberTasksAssigned(Indicator):
         super().__init__(**data)
 
         self.name = f"Nb Tasks Assigned ({self.resource.name})"
-        # this list contains
-        scheduled_tasks = [
-            z3.If(start > -1, 1, 0)
-            for start, end in self.resource._busy_intervals.values()
-        ]
+        if isinstance(self.resource, CumulativeWorker):
+            # the busy intervals are held by the elementary workers: a task is assigned
+            # to the cumulative worker if it occupies at least one of them
+            occupied = {}
+            for worker in self.resource._cumulative_workers:
+                for task, (start, end) in worker._busy_intervals.items():
+                    occupied.setdefault(task, []).append(start > -1)
+            scheduled_tasks = [z3.If(z3.Or(conds), 1, 0) for conds in occupied.values()]
+        else:
+            scheduled_tasks = [
+                z3.If(start > -1, 1, 0)
+                for start, end in self.resource._busy_intervals.values()
+            ]
 
         expression = z3.Sum(scheduled_tasks)
         self.append_z3_assertion(self._indicator_variable == expression)
